@@ -15,7 +15,8 @@ META = dict(
         quick=dict(ndim="1..3", n_symbolic="1..64 per axis (index arithmetic, cell-size constructor)",
                    n_enumerated="each axis in {1,2,3} (lattice enumeration)", dims="default and renamed"),
         thorough=dict(ndim="1..4", n_symbolic="1..64", n_enumerated="each axis in {1..5} (<=3 axes), {1,2,3} (4 axes)",
-                      dims="default and renamed", fp64="binary64 round-trip lemmas n<=8 (cvc5)"),
+                      dims="default and renamed", fp64="binary64 lemmas by cvc5 on the executed code (1-d, n<=5, every i): index->point->index round trip, pmax maps to the last cell; "
+                      "precondition: finite, pmin<pmax, edge in [2^-40,2^40], |corner| <= 2^20*edge"),
     ),
     stubs=["np.linspace modelled by its documented formula (end point exactly `stop`)"],
     assumptions=[
@@ -247,9 +248,134 @@ def h_lattice(sx, cfg):
         sx.check(f"coordfield[{idx}]", sx.eq(list(cf.array[idx]), centre(idx)))
 
 
+def _fp_pre(A, B):
+    """finite, ordered, edge in [2^-40, 2^40], corners within 2^20 edges of the origin (no overflow / underflow of the intermediate results)"""
+    import z3
+
+    from symx import fp64
+
+    e = z3.fpSub(fp64.RNE, B, A)
+    two = lambda k: z3.FPVal(2.0 ** k, fp64.F64)  # noqa: E731
+    return [z3.Not(z3.fpIsNaN(A)), z3.Not(z3.fpIsInf(A)), z3.Not(z3.fpIsNaN(B)), z3.Not(z3.fpIsInf(B)), z3.fpLT(A, B), z3.fpGEQ(e, two(-40)), z3.fpLEQ(e, two(40)),
+            z3.fpLEQ(z3.fpAbs(A), z3.fpMul(fp64.RNE, two(20), e)), z3.fpLEQ(z3.fpAbs(B), z3.fpMul(fp64.RNE, two(20), e))]
+
+
+def h_fp_roundtrip(sx, cfg):
+    """binary64 lemma (cvc5): point2index(index2point(i)) == i for EVERY pair of binary64 corners satisfying the precondition
+    (concrete n, i per task).  The real Region / Mesh code is executed on concolic binary64 proxies; see symx/fp64.py"""
+    import json
+    import os
+
+    import z3
+
+    from symx import fp64
+    from symx.core import SolverUnknown
+
+    df = lib.load()
+    n, i = cfg["n"], cfg["i"]
+    what = cfg.get("what", "roundtrip")
+    cex_file = os.path.join(os.path.dirname(os.path.dirname(os.path.abspath(__file__))), "replays", "C01", f"fp-{what}-{n}-{i}.json")
+
+    def native(a, b):
+        mesh = df.Mesh(p1=a, p2=b, n=n)
+        if what == "roundtrip":
+            return mesh.point2index(mesh.index2point((i,)))[0] == i
+        return mesh.point2index(float(np.asarray(mesh.region.pmax)[0]))[0] == n - 1
+
+    if not sx.sym:
+        ok = native(0.1, 1.3)
+        if os.path.exists(cex_file):
+            c = json.load(open(cex_file))
+            try:
+                ok = ok and native(c["pmin"], c["pmax"])
+            except Exception:  # noqa: BLE001
+                ok = False
+        sx.check("binary64-lemma", ok)
+        return
+
+    def run():
+        a, b = fp64.fp_input("pmin", 0.1), fp64.fp_input("pmax", 1.3)
+        mesh = df.Mesh(p1=a, p2=b, n=n)
+        if what == "roundtrip":
+            j = mesh.point2index(mesh.index2point((i,)))
+            want = i
+        else:
+            j = mesh.point2index(mesh.region.pmax[0])
+            want = n - 1
+        return a, b, j[0], want
+
+    (a, b, j, want), pc = fp64.run_concolic(run)
+    if not isinstance(j, fp64.SymFP):
+        sx.check("binary64-lemma", int(j) == want)
+        return
+    pre = _fp_pre(a.t, b.t)
+    post = z3.fpEQ(j.t, z3.FPVal(float(want), fp64.F64))
+    import concurrent.futures as cf
+
+    with cf.ThreadPoolExecutor(2) as ex:
+        fa = ex.submit(fp64.cvc5_check, pre + [z3.Not(z3.And(*pc))], cfg.get("cap", 1500))
+        fb = ex.submit(fp64.cvc5_check, pre + pc + [z3.Not(post)], cfg.get("cap", 1500))
+        ra, rb = fa.result(), fb.result()
+    sx.observe("cvc5", [ra[0], round(ra[1], 1), rb[0], round(rb[1], 1), len(pc)])
+    for tag, r in (("every-input-follows-the-accepting-path", ra), ("post-condition-on-that-path", rb)):
+        if r[0] == "unknown":
+            raise SolverUnknown(f"cvc5 {tag}: {str(r[2])[:120]}")
+        if r[0] == "sat":
+            m = fp64.model_floats(r[2], ["pmin", "pmax"])
+            repro = None
+            if len(m) == 2:
+                with sx.native():
+                    try:
+                        repro = not native(m["pmin"], m["pmax"])
+                    except Exception:  # noqa: BLE001
+                        repro = True
+                if repro:
+                    os.makedirs(os.path.dirname(cex_file), exist_ok=True)
+                    json.dump(m, open(cex_file, "w"))
+            if repro:
+                sx.check("binary64-lemma", False, counterexample=str(m), query=tag)
+                return
+            raise SolverUnknown(f"cvc5 {tag}: sat but the model {m} does not reproduce natively")
+    sx.check("binary64-lemma", True, cvc5=[ra[0], round(ra[1], 1), rb[0], round(rb[1], 1)], pc_conjuncts=len(pc))
+
+
+def h_fp_boundaries(sx, cfg):
+    """binary64 sweep (native): probe points one ulp around the region faces and around every interior cell face map to an in-range
+    index of a cell that contains the point up to the region tolerance; centres map back to their own index"""
+    df = lib.load()
+    with sx.native():
+        import math
+
+        lo, edge = cfg["pmin"], cfg["edge"]
+        bad = []
+        for n in cfg["ns"]:
+            mesh = df.Mesh(p1=lo, p2=lo + edge, n=n)
+            pmin, pmax = float(mesh.region.pmin[0]), float(mesh.region.pmax[0])
+            c = float(mesh.cell[0])
+            verts = [float(v) for v in mesh.vertices.x]
+            probes = [pmin, math.nextafter(pmin, math.inf), pmax, math.nextafter(pmax, -math.inf)]
+            for v in verts[1:-1]:
+                probes += [v, math.nextafter(v, math.inf), math.nextafter(v, -math.inf)]
+            for p_ in probes:
+                try:
+                    j = mesh.point2index(p_)[0]
+                except Exception as ex:  # noqa: BLE001
+                    bad.append((n, p_, type(ex).__name__))
+                    continue
+                tol = 4e-12 * (edge + abs(p_)) + 4 * abs(p_) * 2.3e-16
+                if not (0 <= j < n) or not (pmin + j * c - tol <= p_ <= pmin + (j + 1) * c + tol):
+                    bad.append((n, p_, j))
+            for i in range(n):
+                if mesh.point2index(mesh.index2point((i,)))[0] != i:
+                    bad.append((n, "centre", i))
+        sx.check("boundary-probes-in-range-and-contained", not bad, bad=str(bad[:5]))
+
+
 def tasks(tier):
     t = []
     nds = (1, 2, 3) if tier == "quick" else (1, 2, 3, 4)
+    for lo, edge in ((0.0, 1.0), (0.0, 7.0), (0.0, 100e-9), (-0.3, 0.9), (1e6, 3.0)) if tier == "quick" else ((0.0, 1.0), (0.0, 7.0), (0.0, 100e-9), (-0.3, 0.9), (1e6, 3.0), (5e-9, 2.5e-8), (-1e3, 0.7)):
+        t.append(dict(harness="h_fp_boundaries", cfg=dict(pmin=lo, edge=edge, ns=list(range(1, 61 if tier == "quick" else 129)))))
     for nd in nds:
         for dims in ("default", "renamed"):
             t.append(dict(harness="h_index2point", cfg=dict(ndim=nd, dims=dims)))
@@ -263,6 +389,13 @@ def tasks(tier):
     other = [x for x in hist if x not in rot_inplace]
     for x in ((rot_inplace[::2] + other[::4]) if tier == "quick" else hist):
         t.append(dict(harness="h_lattice_after_transformations", cfg=x["cfg"], limits=x.get("limits", {})))
+    if tier != "quick":
+        # binary64 lemmas, one (n, i) per task; minutes of cvc5 time each
+        for n in (1, 2, 3, 4, 5):
+            for i in range(n):
+                t.append(dict(harness="h_fp_roundtrip", cfg=dict(n=n, i=i), limits=dict(wall_budget=4000.0, validate=0)))
+        for n in (1, 3, 4):
+            t.append(dict(harness="h_fp_roundtrip", cfg=dict(n=n, i=n - 1, what="pmax"), limits=dict(wall_budget=4000.0, validate=0)))
     cellsets = [["1"], ["3/8"], ["1/1000000000"], ["1", "3/8"], ["7/3", "1/5"]]
     if tier != "quick":
         cellsets += [["5/1000000000", "3/1000000000", "1/1000000000"], ["1", "1", "1/3"], ["1000000", "1/7"]]
